@@ -60,13 +60,22 @@ func DecodeMeta(hdr BoxHeader, startPos uint64, r io.Reader) (Box, error) {
 // DecodeMetaSR decodes a MetaBox in either MPEG or QuickTime version
 func DecodeMetaSR(hdr BoxHeader, startPos uint64, sr bits.SliceReader) (Box, error) {
 	b := MetaBox{}
-	lookAheadData := make([]byte, 4)
-	err := sr.LookAhead(4, lookAheadData)
-	if err != nil {
-		return nil, fmt.Errorf("could not look ahead in Meta box")
+	if hdr.payloadLen() < 4 {
+		return nil, fmt.Errorf("meta: payload size %d less than 4", hdr.payloadLen())
 	}
 	var offset uint64 = 8
-	if bytes.Equal(lookAheadData, []byte("hdlr")) {
+	isQuickTime := false
+	if hdr.payloadLen() >= 8 {
+		// Room for a child box header: QuickTime style has the hdlr box directly after the meta header.
+		// With less than that the look-ahead would leave this box (and fail or not depending on what follows).
+		lookAheadData := make([]byte, 4)
+		err := sr.LookAhead(4, lookAheadData)
+		if err != nil {
+			return nil, fmt.Errorf("could not look ahead in Meta box")
+		}
+		isQuickTime = bytes.Equal(lookAheadData, []byte("hdlr"))
+	}
+	if isQuickTime {
 		b.isQuickTime = true
 	} else {
 		//Note larger offset below since not simple container
